@@ -34,15 +34,6 @@ def ReTotalA : List (List Re) → Prop
   | a :: as => ReTotalL a ∧ ReTotalA as
 end
 
-/-- the effective (bound, decimal companion) pairs `Generator.visit_float` hands to `random_float`:
-    declared bounds, or the defaults widened so that they never fall on the wrong side of a declared bound (fix F7) -/
-def floatRange (mn mx : Option PyFloat) (mnDec mxDec : Option Rat) : (PyFloat × Option Rat) × (PyFloat × Option Rat) :=
-  let lo0 : PyFloat × Option Rat := match mn with | some m => (m, mnDec) | none => (.fin Consts.FLOAT_MIN, some Consts.FLOAT_MIN_DEC)
-  let hi0 : PyFloat × Option Rat := match mx with | some m => (m, mxDec) | none => (.fin Consts.FLOAT_MAX, some Consts.FLOAT_MAX_DEC)
-  let hi := if mx.isNone then (if PyFloat.lt hi0.1 lo0.1 then lo0 else hi0) else hi0
-  let lo := if mn.isNone then (if PyFloat.lt hi.1 lo0.1 then hi else lo0) else lo0
-  (lo, hi)
-
 /-- scalar schemas whose generation cannot raise -/
 def ScalarTotalHyp (env : Env) : ScalarS → Prop
   | .int none (some a) (some b) => a ≤ b
@@ -275,6 +266,8 @@ theorem randomFloat_total (env : Env) (x y : Rat) (loDec hiDec : Option Rat) (pr
   have hlt : PyFloat.lt (.fin y) (.fin x) = false := by
     simp only [PyFloat.lt, decide_eq_false_iff_not, Rat.not_lt]; exact hxy
   simp only [hlt, Bool.false_eq_true, if_false] at h
+  split at h
+  · exact (pure_not_error h).elim
   cases prec with
   | none =>
     obtain ⟨q, hq⟩ := hp
@@ -650,6 +643,7 @@ theorem gen_no_grid_point_counterexample :
   have h1 : ((11/100 : Rat) * 10).ceil = 2 := by decide +kernel
   have h2 : ((19/100 : Rat) * 10).floor = 1 := by decide +kernel
   have h3 : PyFloat.lt (.fin (19/100)) (.fin (11/100)) = false := by decide +kernel
-  simp [gen, genScalar, randomFloat, h3, decCeil, decFloor, liftE, h1, h2, randint, bind, G.bind, pure]
+  have h4 : PyFloat.eq (.fin (11/100)) (.fin (19/100)) = false := by decide +kernel
+  simp [gen, genScalar, floatRange, randomFloat, h3, h4, decCeil, decFloor, liftE, h1, h2, randint, bind, G.bind, pure]
 
 end D42
